@@ -461,17 +461,73 @@ Definition elem_tattrs (pos : nat) (e : selem) : option (list tattr) :=
   | [] => None
   | ps => Some (parts_tattrs (pos + length (se_name e)) ps)
   end.
+Definition elem_value (pos : nat) (e : selem) : option (list token) :=
+  match se_text e with
+  | None => None
+  | Some T => Some (text_tokens (pos + length (se_name e) + length (parts_text (se_parts e)) + 1) T)
+  end.
 Definition elem_leaf (pos : nat) (e : selem) : leaf :=
-  mkLeaf (Some [word_tok pos (se_name e)]) (elem_tattrs pos e) None None false.
+  mkLeaf (Some [word_tok pos (se_name e)]) (elem_tattrs pos e) (elem_value pos e) None false.
+
+(* `{ inner }` after the parts: text() takes the whole run *)
+Lemma text_tokens_plain' pos T : Forall not_expr_bracket (text_tokens pos T).
+Proof.
+  unfold text_tokens. apply Forall_app. split.
+  - destruct (ws_part T); repeat constructor.
+  - destruct (body_part T); repeat constructor.
+Qed.
+
+Lemma elem_body_text jsx s open inner close rest :
+  tk open = TBracket true BExpr -> tk close = TBracket false BExpr -> Forall not_expr_bracket inner ->
+  e_value s = None ->
+  elem_body jsx s (open :: (inner ++ [close]) ++ rest) =
+    ECont (mkEst (e_name s) (e_attrs s) (Some inner) (e_repeat s) (e_self s)) (S (length inner + 1)).
+Proof.
+  intros Ho Hc HF Hv. apply elem_body_default; [unfold rep_of; rewrite Ho; reflexivity|]. cbv zeta. rewrite Hv.
+  assert (Htx : text (open :: (inner ++ [close]) ++ rest) = S (length inner + 1)).
+  { unfold text, is_bracket. rewrite Ho. cbn [bctx_eqb Bool.eqb andb].
+    rewrite <- app_assoc. cbn [app]. rewrite text_loop_inner by assumption.
+    cbn [text_loop]. rewrite Hc. reflexivity. }
+  rewrite Htx. f_equal. f_equal.
+  cbn [firstn]. rewrite <- app_assoc.
+  replace (length inner + 1) with (length (inner ++ [close])) by (rewrite app_length; reflexivity).
+  rewrite app_assoc. rewrite firstn_app, firstn_all, Nat.sub_diag. cbn [firstn]. rewrite app_nil_r.
+  rewrite get_text_run by exact Hc. reflexivity.
+Qed.
+
+Definition set_value (s : est) (v : option (list token)) : est :=
+  match v with None => s | Some _ => mkEst (e_name s) (e_attrs s) v (e_repeat s) (e_self s) end.
+
+Lemma elem_loop_tail jsx s pos t rest :
+  e_value s = None -> gboundary rest ->
+  elem_loop jsx 0 s (tail_toks pos t ++ rest) =
+    POk (set_value s (match t with None => None | Some T => Some (text_tokens (pos + 1) T) end), length (tail_toks pos t)).
+Proof.
+  intros Hv Hb. destruct t as [T|]; cbn [tail_toks set_value app length].
+  - cbn [elem_loop].
+    rewrite (elem_body_text jsx s (tk1 (TBracket true BExpr) pos) (text_tokens (pos + 1) T)
+               (tk1 (TBracket false BExpr) (pos + 1 + length T)) rest eq_refl eq_refl (text_tokens_plain' _ _) Hv).
+    cbn [pred].
+    replace (length (text_tokens (pos + 1) T) + 1) with (length (text_tokens (pos + 1) T ++ [tk1 (TBracket false BExpr) (pos + 1 + length T)]))
+      by (rewrite app_length; reflexivity).
+    rewrite elem_loop_skip. rewrite elem_loop_gboundary by exact Hb. cbn [shiftE]. rewrite Nat.add_0_r. reflexivity.
+  - apply elem_loop_gboundary. exact Hb.
+Qed.
+
+Lemma tail_toks_pstop pos t rest : gboundary rest -> pstop (tail_toks pos t ++ rest).
+Proof. destruct t; cbn [tail_toks app]; [intros _; reflexivity|apply gboundary_pstop]. Qed.
 
 Theorem elem_gblock jsx pos e :
   selem_ok e -> jsx_ok jsx e -> gblock_ok jsx (elem_toks pos e) (elem_leaf pos e).
 Proof.
-  intros [Hn Hp] Hj. split; [discriminate|]. split; [reflexivity|].
-  intros rest Hb. unfold elem_toks. cbn [app].
+  intros [Hn [Hp Ht]] Hj. split; [discriminate|]. split; [reflexivity|].
+  intros rest Hb. unfold elem_toks. cbn [app]. rewrite <- app_assoc.
   set (nt := word_tok pos (se_name e)).
-  set (X := parts_toks (pos + length (se_name e)) (se_parts e) ++ rest).
-  assert (HX : pstop X) by (apply parts_toks_pstop, gboundary_pstop; exact Hb).
+  set (p1 := pos + length (se_name e)).
+  set (TL := tail_toks (p1 + length (parts_text (se_parts e))) (se_text e) ++ rest).
+  set (X := parts_toks p1 (se_parts e) ++ TL).
+  assert (HTL : pstop TL) by (apply tail_toks_pstop; exact Hb).
+  assert (HX : pstop X) by (apply parts_toks_pstop; exact HTL).
   assert (Hcap : jsx && is_capitalized_literal nt = false).
   { destruct Hj as [->|Hj]; [reflexivity|]. unfold is_capitalized_literal, nt, word_tok. cbn [tk].
     unfold head_upper in Hj. destruct (se_name e); [apply andb_false_r|]. rewrite Hj. apply andb_false_r. }
@@ -480,15 +536,16 @@ Proof.
     replace (is_element_name_tok nt) with true by reflexivity.
     rewrite (pstop_not_name X HX). reflexivity. }
   unfold element. rewrite Hname. cbn [firstn elem_loop].
-  unfold X. rewrite elem_loop_parts by (try assumption; apply gboundary_pstop; exact Hb).
-  rewrite elem_loop_gboundary by exact Hb. cbn [shiftE].
-  destruct (add_parts_fields (se_parts e) (mkEst (Some [nt]) None None None false) (pos + length (se_name e)))
+  unfold X. rewrite elem_loop_parts by assumption.
+  destruct (add_parts_fields (se_parts e) (mkEst (Some [nt]) None None None false) p1)
     as [H1 [H2 [H3 [H4 H5]]]].
   cbn [e_name e_value e_repeat e_self e_attrs] in *.
-  unfold est_empty. rewrite H1, H2, H3, H4, H5.
-  unfold elem_leaf, elem_tattrs, leaf_node. cbn [lf_name lf_attrs lf_value lf_repeat lf_self].
-  cbn [length]. rewrite Nat.add_0_r.
-  destruct (se_parts e) as [|p ps]; reflexivity.
+  unfold TL. rewrite elem_loop_tail by assumption. cbn [shiftE].
+  unfold elem_leaf, elem_tattrs, elem_value, leaf_node. cbn [lf_name lf_attrs lf_value lf_repeat lf_self].
+  fold p1.
+  destruct (se_text e) as [T|]; cbn [set_value]; unfold est_empty; cbn [e_name e_value e_attrs e_repeat e_self];
+    rewrite ?H1, ?H2, ?H3, ?H4, H5; cbn [length]; rewrite !app_length;
+    (destruct (se_parts e) as [|p ps]; reflexivity).
 Qed.
 
 Lemma boundary_gboundary rest : boundary rest -> gboundary rest.
